@@ -195,6 +195,12 @@ def legacy_helpers():
     return names
 
 
+# helpers that expand into several independent commands whose mutual order nothing documents
+# (a behaviour-preserving refactor that wrote the four bytes of an int32 from the highest slot
+# down made this check raise a false alarm - see DESIGN.md section 8)
+UNORDERED = ("var_write_int32", "var_read_int32")
+
+
 class _Stall:                                       # pylint: disable=too-few-public-methods
     """Chooser that delays every reply line by the same number of empty reads (option index)
     and answers the default everywhere else - a slow board, nothing exhaustive about it."""
@@ -305,6 +311,8 @@ def check_case(layer, helper, args, expected_fn, motor_state=None):
                      f"durations must each lie in 1..750 and sum to {args[0]}")]
         return []
     want = expected_fn(*args)
+    if helper in UNORDERED and sorted(got) == sorted(want):
+        got = want                      # the order of the four slot accesses is not documented
     if got != want:
         key = dropped_zero_key(layer, helper, args, want, got) or f"text:{layer}.{helper}"
         return [(key, f"{desc} sent {got!r}; the documented command is {want!r}")]
